@@ -1154,7 +1154,9 @@ class Curve(BaseCurve):
         fitfunc = heavy.LeastSquare.fit_function
         if nodes is None:
             umin, umax = self.knotvector.limits
-            nodes_0to1 = heavy.NodeSample.closed_linspace(len(points))
+            nodes_0to1 = heavy.NodeSample.closed_linspace(max(2, len(points)))
+            if len(points) == 1:
+                nodes_0to1 = nodes_0to1[:1]
             nodes = tuple(umin + (umax - umin) * node for node in nodes_0to1)
         knotvector = tuple(self.knotvector)
         nodes = tuple(nodes)
